@@ -38,7 +38,7 @@ ASSUMPTIONS = [
 COMPONENTS = {"real": ["atomica data / excel / programs / framework / parameters / project / reconciliation / migration", "openpyxl, xlsxwriter, pandas", "sciris Spreadsheet, saveobj/loadobj"], "stub": ["time module seen by sciris.sc_asd (reconciliation only)", "np.random.default_rng(None) -> simulated entropy (reconciliation only)"]}
 
 _CORPUS = None
-PROJECTS = ["udt", "usdt", "tb_simple", "hiv", "hypertension", "udt_dyn", "tb_simple_dyn", "hiv_dyn", "hypertension_dyn", "diabetes", "cervicalcancer", "uncertainty", "timed_transfer", "timed_transfer_2", "timed_test", "service", "dt", "tb"]
+PROJECTS = ["udt", "usdt", "tb_simple", "hiv", "hypertension", "udt_dyn", "tb_simple_dyn", "hiv_dyn", "hypertension_dyn", "diabetes", "cervicalcancer", "uncertainty", "timed_transfer", "timed_transfer_2", "timed_test", "timed_indirect", "timed_indirect2", "timed_eligibility", "par_min_max", "service", "dt", "tb"]
 HEAVY = {"tb"}
 
 
@@ -298,8 +298,8 @@ def run(ch, idx, tier):
                     elif kind == 1 and len(ts.t) > 1:
                         ts.remove(ts.t[ch.choose("data_edit.rm", len(ts.t))])
                     elif kind == 2:
-                        if data.tdve[n_].write_uncertainty is False:
-                            continue  # this table does not persist an uncertainty column by design (timed parameters)
+                        if n_ in fw.pars.index and fw.pars.at[n_, "timed"] == "y":
+                            continue  # duration parameters of timed compartments persist no uncertainty column by design
                         ts.sigma = [None, 0.0, 0.25][ch.choose("data_edit.sigma", 3)]
                     else:
                         ts.assumption = base * ch.uniform("data_edit.scale2", 0.7, 1.3) if not ts.has_time_data else ts.assumption
